@@ -40,3 +40,12 @@ Definition verdict (c : N * list N * list N * list op * list obs) : N :=
   (if existsb (fun '(bs, _) => negb (bs mod c_chunk_size =? 0)) (bufs fin) || negb (Nat.eqb (length (scache fin)) 0) then 10 else 0) +
   (if negb (all_match ops (map (spec c_max_len_incl_delim file flen) ops) obsl) then 2
    else if all_match ops (run c_chunk_size c_max_len_incl_delim file flen init ops) obsl then 0 else 1).
+
+(* several threads on one shared cache: each thread's calls and what it observed (the worst outcome over many rounds).  The specification
+   does not depend on the history, so every thread must see `spec` of its own calls whatever the other threads do (Properties/C13.v,
+   C13_schedule_independent).  +10: at least two threads made a call *)
+Definition verdict_mt (c : N * list N * list N * list (list op * list obs)) : N :=
+  let '(flen, zs, ts, threads) := c in
+  let file := file_of zs ts in
+  (if 2 <=? N.of_nat (length (filter (fun t => negb (Nat.eqb (length (fst t)) 0)) threads)) then 10 else 0) +
+  (if forallb (fun t => all_match (fst t) (map (spec c_max_len_incl_delim file flen) (fst t)) (snd t)) threads then 0 else 2).
